@@ -66,8 +66,9 @@ func (g *hostGroup) pop() {
 	g.popN(1)
 }
 
+// popN removes the last n hosts (not bytes) of the group.
 func (g *hostGroup) popN(n int) {
-	g.hosts = g.hosts[:len(g.hosts)-n]
+	g.hosts = g.hosts[:len(g.hosts)-n*g.hostSize]
 }
 
 func (w *Writer) write(what interface{}) error {
@@ -685,9 +686,11 @@ func (w *Writer) AddIndex(r *Reader) (bool, error) {
 					undo()
 					return false, nil
 				}
+				// copy the hosts: rhg.hosts is a slice of the reader's host section, appending to
+				// it later would overwrite the hosts of the reader's next group
 				w.hostGroups = append(w.hostGroups, hostGroup{
 					hostSize: rhg.hostSize,
-					hosts:    rhg.hosts,
+					hosts:    append([]byte(nil), rhg.hosts...),
 				})
 				remap.hostRemap = make([]uint16, 0, rhg.hostCount)
 				for h := 0; h < rhg.hostCount; h++ {
